@@ -419,10 +419,12 @@ func hpConfig(th bool) *hpCfg {
 		{name: "[S0v1]unverifiable", segs: []int{1}, types: []seg.Type{d}, vfail: true}, // 4
 		{name: "[S0v2]", segs: []int{4}, types: []seg.Type{d}},                          // 5 (thorough)
 		{name: "[S0v0:core]", segs: []int{0}, types: []seg.Type{seg.TypeCore}},          // 6 (thorough)
+		{name: "[S1v0]", segs: []int{2}, types: []seg.Type{d}},                          // 7 (thorough)
+		{name: "[S2v0]", segs: []int{3}, types: []seg.Type{d}},                          // 8 (thorough)
 	}
 	good := []int{0, 1, 2}
 	if th {
-		good = append(good, 5)
+		good = append(good, 5, 7, 8)
 	}
 	type gp struct {
 		g int
